@@ -551,7 +551,6 @@ fn cases_of_run(
     peer_name: &str,
     is_final: bool,
     visits: &BTreeMap<u64, Vec<String>>,
-    ever: &mut HashMap<String, BTreeMap<u32, String>>,
     out: &mut RunCases,
 ) -> Result<(), String> {
     let (pt, _) = trace_vec(&rec.input.prev)?;
@@ -603,6 +602,7 @@ fn cases_of_run(
         let mut max_lore = 0usize;
         let mut own_fold = false;
         let mut vis_terms: Vec<String> = vec![];
+        let mut prev_lore: Vec<String> = vec![];
         // folds over this instance: node id -> position, to attribute in-body appends
         let my_folds: Vec<usize> = oi
             .iter()
@@ -662,6 +662,13 @@ fn cases_of_run(
                         body.push(format!("({}, ({}, {}))", l.iter, c::list(adds), c::b(cont)));
                     }
                     events.push(format!("EFold {} {} {} {}", it.pos, c::b(owner), c::list(body), c::list(lore.iter().map(|l| l.iter.to_string()))));
+                    // the values this fold had iterated according to the previous data
+                    let pl: Vec<String> = pi
+                        .iter()
+                        .filter(|x| x.ident == it.ident)
+                        .flat_map(|x| if let ItemKind::Fold { lore: l, .. } = &x.kind { l.iter().map(|e| e.iter.to_string()).collect::<Vec<_>>() } else { vec![] })
+                        .collect();
+                    prev_lore.push(format!("({}, {})", it.pos, c::list(pl)));
                     if owner && *visit {
                         let v = visits.get(fid).cloned().unwrap_or_default();
                         vis_terms.push(format!("({}, {})", it.pos, c::list(v.iter().map(|x| c::s(x)))));
@@ -670,41 +677,14 @@ fn cases_of_run(
                 _ => {}
             }
         }
-        // values an earlier output of this peer held in this instance and this one does not
-        let now: Vec<u32> = oi.iter().filter_map(|x| if let ItemKind::Append { inst: ai, .. } = &x.kind { if *ai == inst { Some(x.ident) } else { None } } else { None }).collect();
-        let mut vanished: Vec<String> = vec![];
-        let seen = ever.entry(inst.clone()).or_default();
-        if is_final {
-            for (id, val) in seen.iter() {
-                if now.contains(id) {
-                    continue;
-                }
-                let mut anc = *id;
-                let mut found = u32::MAX;
-                while let Ident::InFold(_, parent, _) = names.rev[anc as usize].clone() {
-                    if parent == u32::MAX {
-                        break;
-                    }
-                    if now.contains(&parent) {
-                        found = parent;
-                        break;
-                    }
-                    anc = parent;
-                }
-                vanished.push(format!("({}, {})", found, c::s(val)));
-            }
-        }
-        for id in &now {
-            seen.insert(*id, names.value.get(id).cloned().unwrap_or_default());
-        }
         let pairs = |m: &HashMap<u32, u32>| {
             let mut v: Vec<(u32, u32)> = m.iter().map(|(a, b)| (*a, *b)).collect();
             v.sort();
             c::list(v.iter().map(|(a, b)| format!("({}, {})", a, b)))
         };
         out.terms.push(format!(
-            "{{| c_labels := {}; c_prev := {}; c_cur := {}; c_events := {}; c_out := OData {}; c_final := {}; c_visits := {}; c_vanished := {} |}}",
-            c::list(labels), pairs(p), pairs(cu), c::list(events), c::list(outvals), c::b(is_final), c::list(vis_terms), c::list(vanished)
+            "{{| c_labels := {}; c_prev := {}; c_cur := {}; c_events := {}; c_out := OData {}; c_final := {}; c_visits := {}; c_prev_lore := {} |}}",
+            c::list(labels), pairs(p), pairs(cu), c::list(events), c::list(outvals), c::b(is_final), c::list(vis_terms), c::list(prev_lore)
         ));
         let scoped = !inst.ends_with("@global");
         out.classes.push(format!(
@@ -781,7 +761,6 @@ fn run_case(case: &J) -> J {
         }
     }
     let mut names = Interner::default();
-    let mut ever: Vec<HashMap<String, BTreeMap<u32, String>>> = vec![HashMap::new(); peers.len()];
     let mut out = RunCases { terms: vec![], classes: vec![], infos: vec![] };
     let mut run_errors: Vec<J> = vec![];
     let mut reader_errors: Vec<String> = vec![];
@@ -800,7 +779,7 @@ fn run_case(case: &J) -> J {
                     // a single-run program whose appends are all `New`: the attempted appends are static
                     let evs: Vec<String> = (0..t).map(|k| format!("EAdd {} GNew", k)).collect();
                     out.terms.push(format!(
-                        "{{| c_labels := []; c_prev := []; c_cur := []; c_events := {}; c_out := OErr {}; c_final := false; c_visits := []; c_vanished := [] |}}",
+                        "{{| c_labels := []; c_prev := []; c_cur := []; c_events := {}; c_out := OErr {}; c_final := false; c_visits := []; c_prev_lore := [] |}}",
                         c::list(evs), c::z(rec.out.code as i128)
                     ));
                     out.classes.push(format!("limit/err:{}", rec.out.code));
@@ -813,7 +792,7 @@ fn run_case(case: &J) -> J {
             unprocessed.push(serde_json::json!({"step": rec.step, "peer": peers[rec.peer], "msg": rec.out.msg.chars().take(200).collect::<String>()}));
         }
         let is_final = quiescent && last_run.get(&rec.peer) == Some(&i);
-        if let Err(e) = cases_of_run(&prog, rec, &mut names, &peers[rec.peer], is_final, &visits[rec.peer], &mut ever[rec.peer], &mut out) {
+        if let Err(e) = cases_of_run(&prog, rec, &mut names, &peers[rec.peer], is_final, &visits[rec.peer], &mut out) {
             reader_errors.push(format!("step {} peer {}: {}", rec.step, peers[rec.peer], e));
         }
     }
